@@ -239,6 +239,9 @@ func (th *Thread) runBlock(fr *frame) {
 			fr.defers = append(fr.defers, deferred{fnv, args, instr})
 		case *ssa.Go:
 			fnv, args := th.prepareCall(fr, &in.Call)
+			if f, ok := fnv.(*ssa.Function); ok && f.Name() == "vacuum" && m.P.isRepoPkg(f.Pkg) {
+				break // the background cleanup is driven explicitly by the C17 harness
+			}
 			m.spawn(th, fnv, args)
 		case ssa.Value:
 			fr.env[in] = th.eval(fr, in)
